@@ -2236,7 +2236,7 @@ V(id='c16-compare-number-as-enclosure', prop='C16', file='mpmath/ctx_iv.py',
   old="            try:\n                t = s._operand(t)\n", new="            try:\n                t = s.ctx.convert(t)\n",
   expect='fire:F-R11:_compare')
 V(id='c16-contains-number-as-enclosure', prop='C16', file='mpmath/ctx_iv.py',
-  old="    def __contains__(self, t):\n        t = self._operand(t)\n", new="    def __contains__(self, t):\n        t = self.ctx.mpf(t)\n",
+  old="            return mpf_le(a, p) and mpf_le(p, b)\n        t = self._operand(t)\n", new="            return mpf_le(a, p) and mpf_le(p, b)\n        t = self.ctx.mpf(t)\n",
   expect='fire:F-R11:__contains__')
 V(id='c16-operand-rounded-to-prec', prop='C16', file='mpmath/ctx_iv.py',
   old="            v = convert_mpf_(t, 0, round_floor)\n", new="            v = convert_mpf_(t, self.ctx.prec, round_floor)\n",
